@@ -208,6 +208,23 @@ def check(ctx):
                        f"option {p!r} is accepted but never used: it is ignored for every value",
                        clause="every delimiter, header and encoding option used consistently on both sides")
     ctx.count("options of readers/writers", n_opts, 20)
+    wc = repo.fn(f"{DF}.write_csv")
+    from ..cfg import cfg_of
+    from ..facts import cfg_node_of
+    cfgw = cfg_of(wc)
+    enc_tests = [n for n in cfgw.nodes if n.kind == "test" and "codecs.lookup" in norm(n.ast) and "encoding" in norm(n.ast)]
+    rew = [c for _, c in calls_in(wc) if repo.dotted(wc, c.func) == "dataiter.util.xopen" and kw(c, "encoding") is not None
+           and norm(kw(c, "encoding")) == "encoding" and len(c.args) > 1 and "w" in norm(c.args[1])]
+    if enc_tests and rew:
+        rn = cfg_node_of(wc, rew[0])
+        starts = [s_ for s_, lab in enc_tests[0].succ if lab == "T"]
+        bad = [cfgw.path_avoiding(lambda n: n is rn, start=s_) for s_ in starts if s_ is not rn]
+        bad = [p_ for p_ in bad if p_ is not None]
+        ctx.ob("FWD-live", wc, "non-UTF-8 encoding -> file rewritten in that encoding on every path", rew[0], not bad,
+               "whenever another encoding than UTF-8 is requested the file is re-encoded" if not bad else
+               "a path skips the re-encoding although a non-UTF-8 encoding was requested (e.g. depending on the text): the file stays "
+               "UTF-8 and read_csv with the same encoding fails -- " + " -> ".join(map(repr, bad[0])),
+               clause="every encoding option used consistently on both sides")
     lw, lr = repo.fn(f"{LOD}.write_csv"), repo.fn(f"{LOD}.read_csv")
     feats = {}
     for fn in (lw, lr):
